@@ -31,3 +31,10 @@ CHECKS["C18"] = dict(
  text="Every string of length <=3 (quick) / <=4 (thorough) over the format-special alphabet in 5 positions of a single-module program, every single-module example, generated programs, and each of the 63 opcode names through a one-instruction text file: compile --output-format raw-text -> transpile -> execute must print and succeed exactly like `run`, and the instruction streams loaded (hook H3) must be identical.",
  note="Single-module programs only (as the property states). Trusts hook H3. Strings longer than 4 / other characters not explored.",
  design_ref="DESIGN.md section 4, C18")
+
+CHECKS["C05"] = dict(
+ category="exploration",
+ technique="bounded exhaustive enumeration of the operator x kind-pair x boundary-value matrix, every cell executed on the real interpreter against an exact-arithmetic oracle",
+ text="All 16 binary numeric operators x 16 (left kind, right kind) pairs x all pairs from per-kind boundary sets (8 values per kind quick, 9-13 thorough: extremes, neighbours, powers of two, -0.0, 1e300, 1e-300, 2^53+1), plus unary minus and `!`. Operands reach the operator through run-time variables and are themselves verified in the output. Oracle: Python exact integers / IEEE doubles; result kind observed through hook H2; failure expected exactly for unrepresentable results, out-of-range shift amounts and zero divisors of any kind.",
+ note="Dev profile (overflow checks on). Any non-zero exit counts as failure here (panic vs error is C17). Shifts are read as bit shifts of the result kind. Values outside the boundary sets are not explored.",
+ design_ref="DESIGN.md section 4, C05")
